@@ -353,7 +353,8 @@ def run_chunk(asn1c, tmp, idx, cases, stats):
             keep = []
             for c in cs:
                 names = {c.name} | {c.name + "abcdefgh"[i] for i in range(len(c.levels) - 1)}
-                if names & bad: c.c = {"status": "eperm"}
+                if c.name in bad: c.c = {"status": "eperm"}
+                elif names & bad: c.c = {"status": "parent-rejected"}   # only an intermediate type of the chain is refused
                 else: keep.append(c)
             os.unlink(path)
             attempt(keep, depth + 1); return
@@ -406,6 +407,7 @@ def c_expected(c, key):
     st = c.c.get("status")
     if key == "toct":
         return c.ct          # python's parser/pull-up mimic, itself tied to asn1c by the other lines
+    if st == "parent-rejected": return None
     if key == "accepts":
         return "ok" if st == "ok" else st if st == "eperm" else "abort" if st == "crash" else st
     if st != "ok": return None
